@@ -175,11 +175,13 @@ def predicates(instr, p, sig):
         if any(isinstance(x, LoopIR.StrideExpr) for x in (getattr(e, "lhs", None), getattr(e, "rhs", None))):
             raise Unsupported(instr, "stride assertion %s" % e)
         preds.append(_bexpr(instr, e))
-    for a in sig:
-        if a["kind"] == "mem" and a["len"] != 1 and a["name"] not in unit:
-            raise Unsupported(instr, "DRAM window %s has more than one element and no `stride(%s, 0) == 1` "
-                                     "assertion (the memory model is unit stride)" % (a["name"], a["name"]))
     return preds, unit
+
+
+def missing_unit_stride(sig, unit):
+    """DRAM windows of more than one element without `stride(x, 0) == 1`: the assertions then permit a
+    non-unit-stride placement, which the (contiguous-window) memory model excludes"""
+    return [a["name"] for a in sig if a["kind"] == "mem" and a["len"] != 1 and a["name"] not in unit]
 
 
 def _dexpr(instr, e):
@@ -518,6 +520,11 @@ def load_instrs(repo: Path | None = None):
 
 
 def translate_all(repo: Path | None = None):
+    """-> (instruction records, path).  A failure of the GLOBAL checks (import, memory rules, externs) raises
+    Unsupported; a failure inside ONE instruction is recorded in that instruction's `failclosed` list
+    ({stage, construct[, kind, args]}) and the instruction is left out of the generated terms, so that the other
+    instructions stay checked.  Whatever could still be computed (signature, assertions, ...) is kept for the
+    failing-input search."""
     known = modelled_intrinsics()
     ps, path = load_instrs(repo)
     check_memory_rules()
@@ -525,12 +532,36 @@ def translate_all(repo: Path | None = None):
     out = []
     for name, proc in ps:
         p = proc._loopir_proc
-        sig = signature(name, p)
-        preds, unit = predicates(name, p, sig)
-        body = _stmts(name, p.body, sig)
-        frag, calls, unknown = parse_fragment(name, p.instr.c_instr, sig, known)
-        out.append(dict(name=name, sig=sig, preds=preds, unit_stride=sorted(unit), frag=frag, body=body,
-                        calls=calls, unmodelled=sorted(set(unknown)), c_instr=p.instr.c_instr))
+        I = dict(name=name, sig=None, preds=[], unit_stride=[], frag=[], body=[], calls=[], unmodelled=[],
+                 c_instr=p.instr.c_instr, failclosed=[])
+        try:
+            I["sig"] = signature(name, p)
+        except Unsupported as e:
+            I["failclosed"].append(dict(stage="signature", construct=e.construct))
+            out.append(I)
+            continue
+        try:
+            preds, unit = predicates(name, p, I["sig"])
+            I["preds"], I["unit_stride"] = preds, sorted(unit)
+            miss = missing_unit_stride(I["sig"], unit)
+            if miss:
+                I["failclosed"].append(dict(
+                    stage="assertions", kind="non-unit-stride", args=miss,
+                    construct="DRAM window %s has more than one element and no `stride(%s, 0) == 1` assertion "
+                              "(the memory model is unit stride)" % (miss[0], miss[0])))
+        except Unsupported as e:
+            I["failclosed"].append(dict(stage="assertions", construct=e.construct))
+            I["preds"] = None
+        try:
+            I["body"] = _stmts(name, p.body, I["sig"])
+        except Unsupported as e:
+            I["failclosed"].append(dict(stage="body", construct=e.construct))
+        try:
+            I["frag"], I["calls"], unknown = parse_fragment(name, p.instr.c_instr, I["sig"], known)
+            I["unmodelled"] = sorted(set(unknown))
+        except Unsupported as e:
+            I["failclosed"].append(dict(stage="fragment", construct=e.construct))
+        out.append(I)
     return out, path
 
 
@@ -595,6 +626,10 @@ def emit_v(instrs, path: Path) -> str:
     o.append("Open Scope Z_scope.\nOpen Scope string_scope.\n")
     done, unm = [], []
     for I in instrs:
+        if I.get("failclosed"):
+            o.append("(* %s : FAIL CLOSED, no term generated: %s *)\n" % (
+                I["name"], "; ".join(f["construct"] for f in I["failclosed"]).replace("(*", "( *").replace("*)", "* )")))
+            continue
         if I["unmodelled"]:
             unm.append(I["name"])
             o.append("(* %s : NOT MODELLED (intrinsics without a model: %s) *)\n" % (I["name"], ", ".join(I["unmodelled"])))
@@ -638,9 +673,10 @@ def emit_probes_v(probes) -> str:
 def sidecar(instrs):
     js = []
     for I in instrs:
-        js.append(dict(name=I["name"], sig=I["sig"], preds=sx(I["preds"]), preds_ast=I["preds"],
+        js.append(dict(name=I["name"], sig=I["sig"], preds=sx(I["preds"] or []), preds_ast=I["preds"],
                        unit_stride=I["unit_stride"], calls=I["calls"], unmodelled=I["unmodelled"],
-                       c_instr=I["c_instr"], frag=sx(I["frag"]), body=sx(I["body"]), opt=I.get("opt", {})))
+                       c_instr=I["c_instr"], frag=sx(I["frag"]), body=sx(I["body"]), opt=I.get("opt", {}),
+                       failclosed=I.get("failclosed", [])))
     return js
 
 
@@ -654,13 +690,16 @@ def write_if_changed(path: Path, text: str):
 
 def main(argv):
     outdir = Path(argv[1]) if len(argv) > 1 else VERIF / "coq" / "X86"
+    (outdir / "_build").mkdir(exist_ok=True)
+    for stale in ("instrs.json", "probes.json"):        # never leave a sidecar of an earlier source behind
+        if (outdir / "_build" / stale).exists():
+            (outdir / "_build" / stale).unlink()
     try:
         instrs, path = translate_all()
     except Unsupported as e:
         print("py2coq_x86: FAIL CLOSED: %s" % e, file=sys.stderr)
         return 2
     write_if_changed(outdir / "Gen_X86Instrs.v", emit_v(instrs, path))
-    (outdir / "_build").mkdir(exist_ok=True)
     (outdir / "_build" / "instrs.json").write_text(json.dumps(sidecar(instrs), indent=1))
     sys.path.insert(0, str(VERIF / "harness"))
     try:
@@ -671,10 +710,15 @@ def main(argv):
         return 3
     write_if_changed(outdir / "Gen_X86Probes.v", emit_probes_v(probes))
     (outdir / "_build" / "probes.json").write_text(json.dumps(sidecar(probes), indent=1))
-    unm = [I["name"] for I in instrs if I["unmodelled"]]
-    print("py2coq_x86: %d instructions translated, %d unmodelled%s" % (len(instrs) - len(unm), len(unm),
-                                                                      (": " + ", ".join(unm)) if unm else ""))
-    return 0
+    unm = [I["name"] for I in instrs if I["unmodelled"] and not I["failclosed"]]
+    bad = [I for I in instrs if I["failclosed"]]
+    print("py2coq_x86: %d instructions translated, %d unmodelled%s, %d fail closed" % (
+        len(instrs) - len(unm) - len(bad), len(unm), (": " + ", ".join(unm)) if unm else "", len(bad)))
+    for I in bad:       # fail closed: non-zero exit naming the instruction and the construct
+        for f in I["failclosed"]:
+            print("py2coq_x86: FAIL CLOSED: instruction %s: unsupported construct: %s" % (I["name"], f["construct"]),
+                  file=sys.stderr)
+    return 4 if bad else 0
 
 
 if __name__ == "__main__":
